@@ -71,7 +71,7 @@ func uploName(u blas.Uplo) string {
 
 // symSizes returns the (size, profile) plan shared by the symmetric groups.
 func symPlan(g *vlib.G, nq int) (small []int, profs []prof, stock []int) {
-	small = vlib.Ints(0, p3(g, 6, 9, 12))
+	small = vlib.Ints(0, p3(g, 6, 10, 13))
 	profs = profSet(g, nq)
 	stock = []int{1, 2, 5, 31, 32, 33}
 	if lvl(g) >= 1 {
@@ -625,7 +625,7 @@ var tridiagPD = []string{"toep(3,1)", "toep(2,-1)", "graded-down"}
 
 func genDstSpecial(g *vlib.G) {
 	// one block, unit scale and the two scales that make the routines rescale
-	for n := 1; n <= p3(g, 8, 12, 20); n++ {
+	for n := 1; n <= p3(g, 8, 16, 24); n++ {
 		for _, name := range tridiagNames {
 			for _, exp := range []int{0, -450, 515} {
 				n, name, exp := n, name, exp
@@ -789,10 +789,11 @@ func runDstBlocks(t *vlib.T, blocks []tblock) {
 						s += tm.at(i, k) * zm.at(k, j)
 					}
 					s -= d[j] * zm.at(i, j)
-					r2 += (s / refs[j].tol) * (s / refs[j].tol)
+					// accumulate in units of the smallest block norm to stay in range
+					r2 = math.Hypot(r2, s)
 				}
-				if !(math.Sqrt(r2) <= 1) {
-					t.Failf("%s: |T z - lambda z| for eigenvalue %d (%v) is %.3g times the block-relative bound", name, j, d[j], math.Sqrt(r2))
+				if !(r2 <= refs[j].tol) {
+					t.Failf("%s: |T z - lambda z| = %.3g for eigenvalue %d (%v) exceeds the block-relative bound %.3g", name, r2, j, d[j], refs[j].tol)
 					break
 				}
 			}
